@@ -299,6 +299,7 @@ func (e *env) runBinary(binary string, extraEnv []string, home, path, ctl string
 type plan struct {
 	Chunks    int  `json:"chunks"`
 	FailAfter int  `json:"fail_after"` // exit 1 after this many chunks (-1: never)
+	Signal    bool `json:"signal"`     // instead of exiting with status 1, die from SIGKILL (OOM killer, kill -9)
 	Sync      bool `json:"sync"`       // report every chunk boundary and wait for permission
 	PassUntil int  `json:"pass_until"` // boundaries below this one are passed without waiting
 }
@@ -338,6 +339,10 @@ func fakeGo() {
 	for i := 0; i < p.Chunks; i++ {
 		boundary(i)
 		if p.FailAfter == i {
+			if p.Signal {
+				syscall.Kill(os.Getpid(), syscall.SIGKILL)
+				time.Sleep(time.Second)
+			}
 			os.Exit(1)
 		}
 		lo, hi := i*len(listing)/p.Chunks, (i+1)*len(listing)/p.Chunks
@@ -347,6 +352,10 @@ func fakeGo() {
 	}
 	boundary(p.Chunks)
 	if p.FailAfter == p.Chunks {
+		if p.Signal {
+			syscall.Kill(os.Getpid(), syscall.SIGKILL)
+			time.Sleep(time.Second)
+		}
 		os.Exit(1)
 	}
 	os.Exit(0)
